@@ -54,6 +54,13 @@ def run(pid, tier):
         for lp in run_.get("lps", []):
             it = its.get(lp["round"])
             if it is None:
+                # a round that was solved but never reported: a C04 matter when the reporting code itself gave up
+                tb = run_.get("tb") or ""
+                if not run_.get("ok") and ("extract_results.py" in tb or "interpret_results.py" in tb):
+                    out.violation("SolvedRoundReported:%s" % ("humans" if lp["kind"] == "H" else "animals"),
+                                  "%s %s round %d was solved (optimum %.6f) but the reporting code raised %s"
+                                  % (run_["job"]["cc"], run_["job"]["preset"], lp["round"], lp["z"], run_.get("exc")),
+                                  dict(job=run_["job"], exc=run_.get("exc"), tb=tb[-800:]))
                 continue
             traces.append(round_trace(run_, lp, it))
     fails = tracecheck.validate("Trace_Report", "Trace_Report.cfg", traces, out)
